@@ -94,7 +94,7 @@ def handle : List String → String
         let rt : Bool := match fromNBytes p m f.nBytes with
           | .ok g => g == f
           | .error _ => false
-        s!"n={f.n} nbytes={listToHex f.nBytes} pb={listToHexTok ((f.pBytes).take 1)} np={listToHex (f.npBytes.take 10)} rt={bit rt} {observe H f qs (some items)}"
+        s!"n={f.n} nbytes={listToHex f.nBytes} pb={listToHexTok ((f.pBytes).take 1)} np={listToHex (f.npBytes.take 10)} rt={bit rt} ser=1 val=1 {observe H f qs (some items)}"
     | _, _, _, _, _ => "bad-op"
   | ["from", p, m, key, n, d, qs] =>
     match p.toNat?, m.toNat?, hexToList? key, n.toNat?, hexToList? d, parseItems? qs with
@@ -116,7 +116,7 @@ def handle : List String → String
     match hexToList? hdr, hexToList? prevHeader, parseItems? prevs with
     | some hdr, some ph, some prevs =>
       if hdr.length ≠ 80 ∨ ph.length ≠ 32 then "bad-op" else
-      match (outs.splitOn ";").mapM parseItems? with
+      match (if outs == "!" then some [] else (outs.splitOn ";").mapM parseItems?) with
       | none => "bad-op"
       | some outs =>
         let bh := dsha hdr
